@@ -276,6 +276,13 @@ def gen_perm(tier, rnd):
         n = rnd.choice([3, 4])
         pre = rnd.choice(['', '-', '/'])
         lines.append(prim_request('C', '-perm', [pre + ','.join(rnd.choice(singles) for _ in range(n))], 'alone', ' ' + hx('/')))
+    # longer octal spellings: leading zeros keep the value, anything beyond 07777 is not a mode and must be rejected
+    longs = ['00644', '0007777', '000000', '10000', '17777', '20644', '100755', '77777', '777777', '7777777', '40000', '07778', '12345670', '37777777777', '40000000000']
+    for _ in range(200 if tier == 'quick' else 5000):
+        longs.append(''.join(rnd.choice('01234567') for _ in range(rnd.randint(5, 11))))
+    for w in longs:
+        for pre in ['', '-', '/']:
+            lines.append(prim_request('C', '-perm', [pre + w], 'alone', ' ' + hx('/')))
     # the permission test next to other primaries and under operators (a generator that treats neighbours specially
     # must still emit the three checks)
     modes = ['644', '0644', '4755', '2750', '1777', '7777', '000', '0', '111', 'u=rw,go=r', 'a+x', 'u+s', 'g+s', 'o+t', 'ug=rwx']
@@ -446,17 +453,24 @@ def gen_options(tier, rnd):
         opts = 'any' if anyflag else '%d_%s' % (1 if depth else 0, threads if threads is not None else '-')
         lines.append('P %s #grp=o%d #role=base' % (hx(' '.join(base)), g))
         def layout(ws):
-            # parentheses may lose their inner blanks, gaps may be any blank run
+            # parentheses may lose their inner blanks, gaps may be any blank run, blanks may lead and trail
             t = ' '.join(ws)
             if rnd.random() < 0.5:
                 t = t.replace('( ', '(').replace(' )', ')')
             if rnd.random() < 0.3:
                 t = t.replace(' ', rnd.choice(['  ', '\t', ' \n']))
+            if rnd.random() < 0.4:
+                t = rnd.choice([' ', '  ', '\t', '\n', '\r\n ']) + t
+            if rnd.random() < 0.3:
+                t = t + rnd.choice([' ', '\n', '\t '])
             return t
         if anyflag:
             lines.append('P %s #role=var #opts=%s' % (hx(layout(variant)), opts))
-        else:
+        elif g % 2 == 0:
             lines.append('P %s #grp=o%d #role=var #opts=%s' % (hx(layout(variant)), g, opts))
+        else:
+            # compile request: the scan call must use the thread count the options carry
+            lines.append('C %s %s #grp=o%d #role=var #opts=%s' % (hx(layout(variant)), hx('/dev/x'), g, opts))
     # state left behind by a REJECTED input must not leak into the next parse (same process, same thread)
     for bad, good, opts in [('( -name a -threads 7 -depth', '-name b', '0_-'), ('-name a -threads 9 -o', '-threads 2 -name b', '0_2'),
                             ('-depth -name a )', '-name c', '0_-'), ('-name a -depth -bogus', '-name d', '0_-'),
@@ -569,9 +583,21 @@ def gen_layout(tier, rnd):
     v = 16 if tier == 'quick' else 64
     for g in range(n):
         t = rand_layout_tree(rnd, rnd.randint(0, 4))
-        lines.append('P %s #grp=l%d' % (hx(join_layout(spell_layout(t, rnd, 0, True), rnd, True)), g))
+        # a third of the groups carry a run of leading options (the same in every variant): the blanks in
+        # front of, between and behind them vary like all others
+        lead = []
+        if rnd.random() < 0.33:
+            for _ in range(rnd.randint(1, 3)):
+                lead += rnd.choice([['-depth'], ['-threads', str(rnd.choice([1, 2, 4, 16]))], ['-threads', '007']])
+        lines.append('P %s #grp=l%d' % (hx(join_layout(lead + spell_layout(t, rnd, 0, True), rnd, True)), g))
         for _ in range(v - 1):
-            lines.append('P %s #grp=l%d' % (hx(join_layout(spell_layout(t, rnd, 0), rnd)), g))
+            lines.append('P %s #grp=l%d' % (hx(join_layout(lead + spell_layout(t, rnd, 0), rnd)), g))
+    # leading options alone and in front of one primary, behind every kind of leading blank
+    for gi, body in enumerate([['-depth'], ['-threads', '4'], ['-depth', '-threads', '2'], ['-threads', '4', '-name', 'foo'], ['-depth', '-print'],
+                               ['-depth', '-threads', '2', '-type', 'f', '-o', '-size', '+1k'], ['-threads', '1', '(', '-name', 'x', ')']]):
+        for lb in ['', ' ', '  ', '\t', '\n', '\r\n  ', ' \t\r\n ']:
+            for tb in ['', ' ', '\n']:
+                lines.append('P %s #grp=lead%d' % (hx(lb + ' '.join(body) + tb), gi))
     for i, s in enumerate(['', ' ', '\t', '\n', '\r', ' \t\r\n ', '   ']):
         lines.append('P %s #grp=blank' % hx('-true' if i == 0 else s))
         lines.append('P %s #grp=blank' % hx(s))
